@@ -83,6 +83,28 @@ def guarded(fn, seconds=20):
         signal.signal(signal.SIGALRM, old)
 
 
+def labelled_dataset(c, n_classes):
+    """the dataset the sampler is built on: ClsDS, or - c["stack"] = permutation - a KDSubset layer presenting a
+    permuted root (position j shows root sample stack[j]); c["warm"]: the labels of the ROOT were read through the library's bulk utility
+    before (whatever is remembered about a dataset must not leak through the layer above it)"""
+    perm = c.get("stack")
+    if not perm:
+        return ClsDS(c["cls"], c["container"], n_classes=n_classes)
+    from kappadata.datasets.kd_subset import KDSubset
+    root_cls = [0] * len(perm)
+    for j, pj in enumerate(perm):
+        root_cls[pj] = c["cls"][j]
+    root = ClsDS(root_cls, c["container"], n_classes=n_classes)
+    if c.get("warm"):
+        try:
+            # what every class-aware sampler / wrapper does first with a dataset: read all labels through the utility
+            from kappadata.utils.getall_as_tensor import getall_as_tensor
+            getall_as_tensor(root, item="class")
+        except Exception:  # noqa: not the observation
+            pass
+    return KDSubset(root, list(perm))
+
+
 # --------------------------------------------------------------------------------------------- building real samplers
 def build(c, rank, world):
     """the real sampler of configuration c for (rank, world)"""
@@ -97,7 +119,7 @@ def build(c, rank, world):
         return RandomSampler(list(range(c["n"])), replacement=c["repl"], num_repeats=c["rep"],
                              generator=torch.Generator().manual_seed(c["seed"]))
     if s == "cb":
-        ds = ClsDS(c["cls"], c["container"], n_classes=c["C"])
+        ds = labelled_dataset(c, c["C"])
         return ClassBalancedSampler(ds, shuffle=c["shuffle"], samples_per_class=(c["spc"] or None), seed=c["seed"],
                                     rank=rank, world_size=world)
     if s == "w":
@@ -105,7 +127,7 @@ def build(c, rank, world):
         return WeightedSampler(ds, weights=torch.tensor(c["weights"], dtype=torch.float), size=(c["size"] or None),
                                seed=c["seed"], rank=rank, world_size=world)
     if s == "semi":
-        ds = ClsDS(c["cls"], c["container"], n_classes=max(max(c["cls"]) + 1, 1))
+        ds = labelled_dataset(c, max(max(c["cls"]) + 1, 1))
         return SemiSampler(ds, num_labeled=c["nl"], num_unlabeled=c["nu"], rank=rank, world_size=world, seed=c["seed"],
                            length_mode=c["mode"])
     raise ValueError(s)
@@ -333,7 +355,8 @@ def c12_key(c):
                 f"container={c['container']}")
     else:
         body = f"N={c['n']},size={c['size']},W={c['W']},zeros={sum(1 for x in c['weights'] if x == 0)}"
-    return f"{s}:{body},seed={c['seed']}" + (f",procgroup={c['pg']}" if c.get("pg") else "")
+    return (f"{s}:{body},seed={c['seed']}" + (f",procgroup={c['pg']}" if c.get("pg") else "")
+            + (f",stacked{'+warm' if c.get('warm') else ''}" if c.get("stack") else ""))
 
 
 def c12_nontrivial(c, sc):
@@ -412,7 +435,8 @@ def c13_key(c):
                 f"container={c['container']}")
     else:
         body = f"N={c['n']},size={c['size']},W={c['W']},zeros={sum(1 for x in c['weights'] if x == 0)}"
-    return f"{s}:{body},seed={c['seed']}" + (f",procgroup={c['pg']}" if c.get("pg") else "")
+    return (f"{s}:{body},seed={c['seed']}" + (f",procgroup={c['pg']}" if c.get("pg") else "")
+            + (f",stacked{'+warm' if c.get('warm') else ''}" if c.get("stack") else ""))
 
 
 def c13_nontrivial(c):
@@ -618,6 +642,10 @@ def run(prop, tier, seed):
     pg_ids = set(cand[:n_pg])
     for i, c in enumerate(cfgs):
         c["seed"] = r.randint(0, 5000)
+        if c["sampler"] in ("cb", "semi") and len(c["cls"]) >= 2 and r.random() < 0.25:
+            perm = list(range(len(c["cls"])))
+            r.shuffle(perm)
+            c["stack"], c["warm"] = perm, r.random() < 0.7
         sched = schedule_for(r, c["sampler"], n_epochs=(4 if quick else 5))
         if i in pg_ids:
             # torch's own DistributedSampler refuses default ranks before the group exists: no preview there
